@@ -45,7 +45,7 @@ partial def loop (h : IO.FS.Stream) (out : IO.FS.Stream) (f : Line → String) :
   let l := (line.dropRightWhile (· == '\n')).dropRightWhile (· == '\r')
   match parseLine l with
   | none => out.putStrLn "FAIL unparsable line"
-  | some ln => out.putStrLn (f ln)
+  | some ln => out.putStrLn ((f ln).replace "\n" " ")   -- one verdict per line, whatever a pretty-printer did
   loop h out f
 
 end Sqroot.Driver
